@@ -87,6 +87,8 @@ def _handler(case):
             net = p - pr
             if net != bus.pprod - bus.pload:
                 viols.append(("ev.net", f"park net exchange {net} != sum over cars {bus.pprod - bus.pload}"))
+            if park.curr_p_charge != bus.pload - bus.pprod:
+                viols.append(("ev.reported-net", f"park reports a net exchange of {park.curr_p_charge} MW (curr_p_charge) but its cars exchanged {bus.pload - bus.pprod} MW in this increment"))
             if not c["v2g"] and park.curr_p_charge < 0:
                 viols.append(("ev.v2g", f"V2G disabled but the park feeds {-park.curr_p_charge} MW into the grid"))
             if not c["v2g"] and bus.pprod > 0:
